@@ -55,6 +55,44 @@ func c13Gen(rt *rapid.T) c13Case {
 	cfg := gen.HistCfg{MaxTables: 3, MaxCols: 3, Direct: false, RowCounts: []int{1, 2, 4, 9, 10}, Small: true}
 	db := model.NewDB()
 	var c c13Case
+	if rapid.IntRange(0, 7).Draw(rt, "bulk") == 3 {
+		// long statements: a table of several hundred rows, then statements that
+		// touch all of it, each held open early so that a tick is already waiting
+		// for the lock while the statement works through its rows
+		add := func(s model.Stmt, park bool) {
+			s.SQL = gen.RenderStmt(gen.Plain(), s)
+			gen.MustApply(db, s)
+			st := c13Step{Stmt: &s}
+			if park {
+				st.ParkMs = rapid.SampledFrom([]int{120, 160, 230}).Draw(rt, "bparkms")
+				st.ParkAt = rapid.IntRange(1, 6).Draw(rt, "bparkat")
+				st.ParkEarly = true
+			}
+			c.Steps = append(c.Steps, st)
+		}
+		add(model.Stmt{Kind: "create", Table: "big", Cols: []model.Col{{Name: "a", Type: model.TInt}, {Name: "s", Type: model.TVarchar, Len: 8}}}, false)
+		rows := rapid.SampledFrom([]int{520, 600, 800, 1100}).Draw(rt, "bulk_rows")
+		for n := 0; n < rows; {
+			ins := model.Stmt{Kind: "insert", Table: "big"}
+			for i := 0; i < 130 && n < rows; i++ {
+				ins.Rows = append(ins.Rows, []model.Val{model.Int(int64(n)), model.Str("v")})
+				n++
+			}
+			add(ins, false)
+		}
+		for k := rapid.IntRange(2, 4).Draw(rt, "bulk_ops"); k > 0; k-- {
+			switch rapid.IntRange(0, 3).Draw(rt, "bulk_op") {
+			case 0, 1:
+				add(model.Stmt{Kind: "update", Table: "big", Set: []model.Assign{{Col: "s", Val: model.Str(fmt.Sprintf("u%d", k))}}}, true)
+			case 2:
+				lit := model.Int(int64(rapid.IntRange(0, 40).Draw(rt, "bulk_from")))
+				add(model.Stmt{Kind: "delete", Table: "big", Where: &model.Cond{Or: [][]model.Cmp{{{L: model.Operand{Col: "a"}, Op: ">=", R: model.Operand{Lit: &lit}}}}}}, true)
+			default:
+				c.Steps = append(c.Steps, c13Step{Select: "SELECT * FROM big", ParkMs: 160, ParkAt: rapid.IntRange(1, 6).Draw(rt, "bselat")})
+			}
+		}
+		return c
+	}
 	if rapid.Bool().Draw(rt, "smallcache") {
 		c.Cache = rapid.IntRange(8, 16).Draw(rt, "cache")
 		if rapid.Bool().Draw(rt, "biginserts") {
